@@ -1,9 +1,9 @@
 import json,sys,glob,os
 pid=sys.argv[1]; tag=sys.argv[2]
-base=open('/tmp/mut/prompt.py').read()
+base=open('/verif/tools/mut_prompt.py').read()
 # render the round-1 prompt with directories renamed to <pid><tag>
 import subprocess
-txt=subprocess.check_output(['python3','/tmp/mut/prompt.py',pid]).decode()
+txt=subprocess.check_output(['python3','/verif/tools/mut_prompt.py',pid]).decode()
 txt=txt.replace(f'/tmp/wt/{pid}',f'/tmp/wt/{pid}{tag}').replace(f'/tmp/mut/{pid}/',f'/tmp/mut/{pid}{tag}/').replace(f'/tmp/mut/{pid} ',f'/tmp/mut/{pid}{tag} ').replace(f'/tmp/mut/{pid};',f'/tmp/mut/{pid}{tag};')
 prev=[]
 for d in glob.glob(f'/verif/seeded/{pid}-*'):
